@@ -68,6 +68,11 @@ def gen_program(rng, length, kills):
             if rng.random() < 0.8 and a > b:
                 a, b = b, a
             ops.append("delrange %d %d" % (a, b))
+        elif r < 0.73:
+            # the iterator the snapshot code reads the log with: [start, limit), empty when limit <= start
+            a = rng.choice(pool + [0, 1])
+            b = rng.choice(pool + [0, 1, U64, 2**63, a, a + 1]) if rng.random() < 0.5 else rng.choice(pool) + 1
+            ops.append("bulk %d %d" % (a, b % (U64 + 1)))
         elif r < 0.76:
             ops.append("set %s %s" % (hx(rng.choice(SKEYS)), hx(rng.choice([b"", b"abc", b"\x00" * 8, b"node1:8001"]))))
         elif r < 0.81:
@@ -87,6 +92,27 @@ def gen_program(rng, length, kills):
         else:
             ops.append("kill")
             ops.append("reopen %d" % rng.choice([0, 1]))
+    return ops
+
+
+def gen_upgrade_program(rng):
+    """rolling upgrade: a JSON-mode store holding entries whose messages are JSON or already protobuf, and raft-internal
+    entries, is converted to protobuf and every entry read back (both readers)"""
+    ops = ["open 0"]
+    idxs = sorted(rng.sample(range(1, 60), rng.choice([3, 5, 8])))
+    for i in idxs:
+        if rng.random() < 0.8:
+            ops.append("store 1 " + " ".join(gen_entry(rng, i)))
+        else:
+            ops.append("storeproto " + " ".join(gen_entry(rng, i)))
+    if rng.random() < 0.3:
+        ops.append("setu %s %d" % (hx(rng.choice(SKEYS)), rng.choice([1, 7, 2**40])))
+    ops.append(rng.choice(["convert", "reopen 1"]))
+    for i in idxs:
+        ops += ["getlog %d" % i, "fmt %d" % i]
+    ops += ["first", "last"]
+    if rng.random() < 0.5:
+        ops += ["convert", "getlog %d" % idxs[0], "getlog %d" % idxs[-1]]
     return ops
 
 
@@ -113,6 +139,12 @@ def oracle(ops, outs):
             want = str(max(logs)) if logs else "0"
             if out != want:
                 return i, "LastIndex returned %s, expected %s" % (out, want)
+        elif f[0] == "bulk":
+            a, b = int(f[1]), int(f[2])
+            got = [int(k, 16) for k in out.split() if len(k) == 16]          # 8-byte keys = log indexes; longer ones are stable-store keys
+            want = sorted(k for k in logs if a <= k < b)
+            if got != want:
+                return i, "GetBulkIterator(%d, %d) visited the log entries %s, stored in [start, limit): %s" % (a, b, got[:8], want[:8])
         elif f[0] == "delrange":
             a, b = int(f[1]), int(f[2])
             for k in [k for k in logs if a <= k <= b]:
@@ -177,6 +209,37 @@ REGRESSION = [
 ]
 
 
+def store_stage(run, nprog, plen, kills, label):
+    """differential of the real LevelDBStore against the model + the in-memory-map oracle; used by C09 itself and,
+    with fewer programs, by C05 (whose composition rests on the store contract, incl. the bulk iterator Persist reads with).
+    Returns (exe_ok, corr_ok, bad or None, ops, di, progs)"""
+    ok, exe, out = vlib.build_harness("raftstore", "internal/raftstore", HARNESS)
+    run.obligation("go harness builds from /repo (internal/raftstore)", ok, out)
+    if not ok:
+        return False, False, None, [], None, []
+    rng = run.rng
+    progs = [list(p) for p in REGRESSION]
+    for i in range(nprog):
+        progs.append(gen_program(rng, rng.randrange(5, plen), kills=(i < kills)))
+    for i in range(max(10, nprog // 5)):
+        progs.append(gen_upgrade_program(rng))
+    ops = [o for p in progs for o in p]
+    d = vlib.workdir("c09-" + run.prop)
+    gl, gerr = run_go(exe, ops, d)
+    ll, lerr = run_lean(ops, d)
+    shutil.rmtree(d, ignore_errors=True)
+    di = vlib.first_diff(gl, ll)
+    corr_ok = di is None and not gerr and not lerr and len(gl) == len(ops)
+    run.obligation("%s: real LevelDBStore == Lean model on %d programs (%d ops, %d kill/reopen)" % (label, len(progs), len(ops), ops.count("kill")), corr_ok,
+                   (gerr or lerr or "") + (" first difference at op %s `%s`: go=%s lean=%s" % (di, ops[di][:200] if di is not None and di < len(ops) else "", gl[di][:200] if di is not None and di < len(gl) else "<missing>", ll[di][:200] if di is not None and di < len(ll) else "<missing>") if di is not None else ""))
+    bad = oracle(ops, gl)
+    if bad is not None:
+        i, why = bad
+        start = max(j for j in range(i + 1) if ops[j].startswith("open "))
+        bad = (why, ops[start:i + 1])
+    return True, corr_ok, bad, ops, di, progs
+
+
 def check(run):
     nprog, plen = (250, 40) if run.tier == "quick" else (6000, 80)
     proved = run.prove()
@@ -190,6 +253,8 @@ def check(run):
     progs = [list(p) for p in REGRESSION]
     for i in range(nprog):
         progs.append(gen_program(rng, rng.randrange(5, plen), kills=(i < kills)))
+    for i in range(nprog // 5):
+        progs.append(gen_upgrade_program(rng))
     ops = [o for p in progs for o in p]
     d = vlib.workdir("c09")
     gl, gerr = run_go(exe, ops, d)
